@@ -376,6 +376,19 @@ func csvReadSection(r *tx.Rng, w *tx.W, size int, opt map[string]string) {
 	if big {
 		d = genBigCsvDoc(r)
 	}
+	// an enum column derived from the data with a cardinality at the limit (254..257 distinct values)
+	enumCard := 0
+	if opt["faults"] == "" && !big && r.P(1, 30) {
+		enumCard = r.PickInt([]int{254, 255, 256, 257, 300})
+		d = csvDoc{delim: ','}
+		d.cells = append(d.cells, []string{"e", "n"})
+		for i := 0; i < enumCard+3; i++ {
+			d.cells = append(d.cells, []string{"v" + strconv.Itoa(i%enumCard), strconv.Itoa(i)})
+		}
+		for _, row := range d.cells {
+			d.doc = append(d.doc, (row[0] + "," + row[1] + "\n")...)
+		}
+	}
 	ncols := 0
 	if len(d.cells) > 0 {
 		ncols = len(d.cells[0])
@@ -423,6 +436,11 @@ func csvReadSection(r *tx.Rng, w *tx.W, size int, opt map[string]string) {
 	}
 	if r.P(1, 20) {
 		enums["nosuch"] = []string{"a"}
+	}
+	if enumCard > 0 {
+		typs = map[string]string{"e": "enum"}
+		enums = map[string][]string{}
+		headers = nil
 	}
 	cells := map[string]bool{}
 	for _, row := range d.cells {
